@@ -386,11 +386,14 @@ SPECS["C07"] = ("""property C07: filter JSON parsing is faithful, order-independ
    THE ROUND TRIP: parsing the text Filter::as_json writes gives back byte-for-byte the canonical encoding
    of the same filter (FilterRoundTrip.v: the member loop with its found-bits and letter set, both passes
    over ids/authors/kinds and over every tag array, numbers, the caller's buffer with any prior contents),
-   for every filter with distinct tag letters.  Faithfulness on texts as_json does NOT write (other member
-   orders, whitespace, escapes, unknown members, duplicates) and order independence are decided per run by the
-   differential check (all 52x52 letter pairs, member orders, escapes, boundaries; python json as
-   independent parser).""",
-  CODIMP + "\nFrom Pocket Require Import EscapeRoundTrip JsonRoundTrip FilterRoundTrip.", [
+   for every filter with distinct tag letters;  ANY MEMBER ORDER and ORDER INDEPENDENCE (FilterAnyOrder.v):
+   for every list of distinct members in any order (including explicitly empty arrays and a limit above
+   2^32-1), in the library's spelling, the parse is the canonical encoding of the filter they denote, and
+   two texts whose members are permutations of each other (tag fields in the same relative order, which is
+   the order of the encoded tags) give identical bytes.  Faithfulness on texts with whitespace, alternative
+   escapes, unknown members and duplicates is decided per run by the differential check (all 52x52 letter
+   pairs, member orders, escapes, boundaries; python json as independent parser).""",
+  CODIMP + "\nFrom Coq Require Import Permutation.\nFrom Pocket Require Import EscapeRoundTrip JsonRoundTrip FilterRoundTrip FilterAnyOrder.", [
   ("C07_integer_value_partial",
    "forall l, read_u64 l = let '(ds, rest) := span_digits l in\n    match ds with [] => Err EJson | _ => if num_of ds <=? 18446744073709551615 then Ok (num_of ds, rest) else Err EJson end",
    "read_u64_spec", ""),
@@ -398,7 +401,38 @@ SPECS["C07"] = ("""property C07: filter JSON parsing is faithful, order-independ
   ("C07_filter_json_roundtrip_partial",
    "forall f tags txt out, wf_filter_json f tags -> filter_size f <= len out -> filter_as_json f = Ok txt ->\n    filter_from_json txt out = Ok (len txt, enc_filter f, enc_filter f ++ drop (filter_size f) out)",
    "filter_json_roundtrip", "EVERY filter whose tag letters are distinct ASCII letters, whose ids/authors are 32 bytes, kinds < 2^16, numbers within their widths and strings valid UTF-8: Filter::from_json reads Filter::as_json's text back to exactly the canonical binary encoding, consuming the whole text and leaving the rest of the buffer untouched"),
+  ("C07_any_member_order",
+   "forall ms tail out, members_wf ms -> filter_size (filter_of ms) <= len out ->\n    filter_from_json (members_text ms tail) out\n    = Ok (len (members_text ms tail) - len tail, enc_filter (filter_of ms), enc_filter (filter_of ms) ++ drop (filter_size (filter_of ms)) out)",
+   "filter_any_order", "EVERY list of distinct members (ids/authors/kinds arrays incl. empty ones, limit/since/until < 2^64, one field per tag letter) in ANY order, whatever follows the closing brace: the parse consumes exactly the object and writes the canonical encoding of the denoted filter (absent members take the defaults, limit saturates at 2^32-1, tag fields keep their textual order)"),
+  ("C07_order_independent",
+   "forall ms ms' tail tail' out, members_wf ms -> Permutation ms ms' -> tags_of ms = tags_of ms' ->\n    filter_size (filter_of ms) <= len out ->\n    exists c c' enc buf, filter_from_json (members_text ms tail) out = Ok (c, enc, buf) /\\\n                         filter_from_json (members_text ms' tail') out = Ok (c', enc, buf)",
+   "filter_order_independent", "two texts with the same members in different orders give the same bytes"),
   ], """
+(* non-vacuity of order independence: six members, a saturating limit, trailing bytes after the object *)
+Example C07_order_example :
+  let te : tagspec := (101, ([[97; 34]; []], [[97; 92; 34]; []])) in
+  let tP : tagspec := (80, ([repeat 102 64], [repeat 102 64])) in
+  let ms := [MUntil 99; MTag te; MKinds [1; 30023]; MIds [repeat 1 32]; MTag tP; MLimit 5000000000] in
+  let ms' := [MTag te; MIds [repeat 1 32]; MLimit 5000000000; MTag tP; MUntil 99; MKinds [1; 30023]] in
+  members_wf ms /\\ Permutation ms ms' /\\ tags_of ms = tags_of ms' /\\
+  f_limit (filter_of ms) = 4294967295 /\\
+  filter_from_json (members_text ms' [1; 2]) (repeat 170 (N.to_nat (filter_size (filter_of ms)) + 3))
+  = Ok (len (members_text ms' [1; 2]) - 2, enc_filter (filter_of ms), enc_filter (filter_of ms) ++ [170; 170; 170]).
+Proof.
+  cbv zeta. refine (conj _ (conj _ (conj eq_refl (conj eq_refl _)))).
+  - unfold members_wf. refine (conj _ (conj _ _)).
+    + assert (R : forall b n, b < 256 -> wf_bytes (repeat b n)) by (intros b n Hb; apply Forall_forall; intros x Hx; apply repeat_spec in Hx; subst x; exact Hb).
+      repeat constructor; cbn; try lia; try (apply R; lia).
+      * exists [97; 34]. split; [repeat constructor; unfold scalar; lia|reflexivity].
+      * exists []. split; [constructor|reflexivity].
+      * exists (repeat 102 64). split; [|vm_compute; reflexivity]. apply Forall_forall. intros x Hx. apply repeat_spec in Hx. subst x. unfold scalar. lia.
+    + repeat constructor; cbn; intuition discriminate.
+    + repeat apply conj; vm_compute; reflexivity.
+  - apply NoDup_Permutation_bis; [repeat constructor; cbn; intuition discriminate|reflexivity|].
+    intros x Hx. cbn in Hx |- *. intuition.
+  - vm_compute. reflexivity.
+Qed.
+
 (* non-vacuity of the filter round trip: two ids, an author, two kinds, a tag with a quote and an empty value, an uppercase tag, since and limit *)
 Example C07_filter_example :
   let tags : list tagspec := [(101, ([[97; 34]; []], [[97; 92; 34]; []])); (80, ([repeat 102 64], [repeat 102 64]))] in
